@@ -711,15 +711,46 @@ def execute(desc):
       ProbeFraction.hook = None
       if nested_y is not None and value.set_done is not None:
         if value.set_done is True:
-          # the nested assignment completed first: the history is
-          # [set treatment series, set control series]
-          t.y = np.array(nested_y)
-          t.x = None
+          # Two assignments overlapped.  Which of them prevails is not C08's
+          # business (the nested one may complete first and stand, or be
+          # overwritten by a setter that commits a snapshot taken earlier):
+          # the current series are what the object itself reports.  C08's
+          # business is that these are series a freshly built object can
+          # hold, and that everything reported afterwards matches them.
+          if raised is not None and not isinstance(raised, ValueError):
+            stats['skipped']['assignment_failed_non_valueerror'] = 1
+            break
+          try:
+            ry, rx = obj.y, obj.x
+            t.y = np.array(ry)
+            t.x = None if rx is None else np.array(rx)
+          except Exception:  # pylint: disable=broad-except
+            stats['skipped']['series_unreadable_after_nested_assignment'] = 1
+            break
           t.caller_x = t.caller_y = None
           t.alias_x = t.alias_y = False
           t.read_since_assign = set()
           n_assign += 1
           fault('assignment_nested_in_assignment')
+          try:
+            fresh(t.y, t.x, t.pk)
+            unholdable = None
+          except Exception as e:  # pylint: disable=broad-except
+            unholdable = e
+          if unholdable is not None:
+            viol = core.violation(
+                PROPERTY, 'D3', step, kind,
+                'after an assignment nested in an assignment the object holds '
+                'series that no freshly built object accepts',
+                expected='a state some fresh object can hold',
+                got=[core.canon(unholdable), len(t.y),
+                     None if t.x is None else len(t.x)])
+            break
+          events.append([step, kind, op.get('o', 0), op['s'], 'nested',
+                         core.canon(raised), core.canon(t.y),
+                         core.canon(t.x)])
+          absig.append((kind, op.get('o', 0), kinds[op['s']], 'nested'))
+          continue
         elif not isinstance(value.set_done, ValueError):
           stats['skipped']['assignment_failed_non_valueerror'] = 1
           break
